@@ -20,7 +20,6 @@ Safety (always judged)
 Bounded progress (only while no harness server has closed a connection and no downgrade was scripted)
   P1  after N service rounds (N computed from the script) there is exactly one response per queued request
 """
-import errno
 import random
 import select
 import socket
@@ -61,7 +60,7 @@ REQUIRE = {"requests_arrived": 800, "arrival_order_checks": 800, "rx_events_chec
            "responses_entries_checked": 500, "redirect_histories_checked": 60, "downgrade_cases": 8,
            "rounds_with_response_pending_and_more_requests_queued": 200, "healthy_progress_checks": 100}
 _EXH = ("queues of 1-3 requests x {immediate, delayed, dribbled} x {no redirect, 302 same server, 307 other port} (each request of the queue "
-        "uses the same behaviour); plus reconnect-after-`Connection: close` x next response dribbled {1,2,3,16,all} bytes/round x {GET, POST}")
+        "uses the same behaviour); plus reconnect-after-`Connection: close` x next response dribbled {1,2,3,16,all} bytes/round x {GET, POST} x {final, 302}")
 EXHAUSTIVE = {"quick": _EXH, "thorough": _EXH}
 
 PORT_BASE = 42000
@@ -136,14 +135,18 @@ def cases(tier, seed, shard, nshards):
     # next response arrives d bytes per round (the receive buffer runs empty between reads on the NEW connection)
     for d in (1, 2, 3, 16, 0):
         for method in ("GET", "POST"):
-            if i % nshards == shard:
-                reqs = [fixed_req(f"K{i}q{j}", "immediate", "none") for j in range(3)]
-                reqs[0]["hops"][-1]["connclose"] = True
-                reqs[1]["method"] = method
-                reqs[1]["body"] = "reconnect-body" if method == "POST" else ""
-                reqs[1]["hops"][-1]["dribble"] = d
-                yield {"kind": "reconnect", "tls": False, "reconnectable": True, "reqs": reqs}
-            i += 1
+            for redirect in ("none", "same"):
+                if i % nshards == shard:
+                    reqs = [fixed_req(f"K{i}q{j}", "immediate", "none") for j in range(3)]
+                    reqs[0]["hops"][-1]["connclose"] = True
+                    reqs[1] = fixed_req(f"K{i}q1", "immediate", redirect)
+                    reqs[1]["method"] = method
+                    reqs[1]["body"] = "reconnect-body" if method == "POST" else ""
+                    reqs[1]["hops"][0]["dribble"] = d     # the first response on the NEW connection arrives d bytes per round
+                    if redirect == "same":
+                        reqs[1]["hops"][0]["framing"] = "chunked"
+                    yield {"kind": "reconnect", "tls": False, "reconnectable": True, "reqs": reqs}
+                i += 1
     rng = random.Random(f"{seed}:C19:{shard}")
     nrand = (720 if tier == "quick" else 20000) // nshards
     for c in range(nrand):
@@ -187,6 +190,7 @@ class World:
         self.outstanding = None       # (id, hop) whose response is not yet completely written
         self.server_closed = False    # a harness server closed a connection (after that: safety only)
         self.ports = {}
+        self.client = None
         self.accepts = 0
         self.issued = {}              # (id, hop) -> Location value the scripted server actually sent
         self.entry_ids = []           # request ids of the entries of client.responses seen so far
@@ -197,6 +201,20 @@ class World:
 
     def ev(self, *a):
         self.log.append([self.rnd] + list(a))
+
+    def abandoned(self, oid):
+        """How does the client stand to the outstanding request `oid` at the moment more request bytes arrive?"""
+        cl = self.client
+        if cl is not None:
+            for e in list(cl.responses):
+                hdrs = (e.get("request") or {}).get("headers") or {}
+                if hdrs.get("X-Id") == oid:
+                    return "previous-response-abandoned-as-errored" if e.get("errored") else "previous-request-already-has-an-entry"
+            for r in list(cl.redirects):   # an errored redirect response is followed like a good one
+                hdrs = (r.get("request") or {}).get("headers") or {}
+                if hdrs.get("X-Id") == oid and r.get("errored"):
+                    return "previous-response-abandoned-as-errored"
+        return "no-entry-for-previous-request-yet"
 
     def viol(self, key, msg):
         if key in self.violated:
@@ -326,7 +344,7 @@ class RawServer:
                 oid, ohop = w.outstanding
                 # did the client already give up on the outstanding request (an entry for it exists)?  Then it is not
                 # plain pipelining but a response abandoned half-way with the next request sent into the same stream.
-                how = "previous-request-already-has-an-entry" if oid in w.entry_ids else "no-entry-for-previous-request-yet"
+                how = w.abandoned(oid)
                 w.viol("request-bytes-before-previous-response-complete:" + how,
                        f"{len(d)} bytes {bytes(d[:60])!r} arrived at {self.name}#{c.idx} while the response to {oid} hop {ohop} "
                        f"was not yet completely written by the scripted server")
@@ -601,6 +619,7 @@ def run_case(case, ctx):
         else:
             client = clienting.Client(hostname="127.0.0.1", port=a.port, **kwa)
         client.reopen()
+        world.client = client
         _drive(case, ctx, world, servers, client, tymist)
     finally:
         if client is not None:
